@@ -408,6 +408,11 @@ where
     ) -> Result<(), MqttError> {
         connection.disconnection_timestamp = None;
 
+        // Every exchange that is sent again is still unfinished, it takes up
+        // a slot of the receive maximum of the new connection.
+        let unfinished = u16::try_from(session.retrasmit_queue.len()).unwrap_or(u16::MAX);
+        connection.send_quota = connection.send_quota.saturating_sub(unfinished);
+
         for (_, packet) in session.retrasmit_queue.iter() {
             tx.write(packet.as_ref()).await?;
         }
